@@ -4,6 +4,12 @@ import json, os, subprocess
 V = "/verif"
 CHECKS = {
  # id: (category, technique, level text, level note, design ref)
+ "C01": ("exploration", "step-wise invariant monitor over hooked handlers (direct mode) and the real Run loop under the race detector; independent wire decoder + quorum/signature predicate",
+         "Generated hostile scenarios (set sizes 1..19, node key at every position or absent, 1-3 successive sets, forged/mis-addressed/non-member/other-digest observations, inbound VAAs of ten kinds, set updates anywhere) are delivered to the real handlers; after every step every quorum VAA on the outbound channel and every changed store entry is decoded independently and must carry >= quorum valid, ascending signatures of the set in force at observation time (aggregated, and naming it) or of the current set (inbound); stored VAAs may not be replaced by peer copies. A subset runs through the real Processor.Run with the real loop-back race under -race.",
+         "Guardian sets have distinct keys; ecrecover/Keccak shared. libp2p receive loop not executed (DESIGN 1.1).", "3/C01"),
+ "C02": ("exploration", "reference-model trace checker (exact expected outputs per step), order-permutation confluence, exhaustive small orders, run-loop replay under the race detector",
+         "A 60-line reference model predicts, for every step, the exact own observation and the exact quorum-VAA bytes; the real handlers must emit exactly those (publication exactly at first quorum after local observation, never before, once per lifetime, body equal to the own observation, nothing at all for governance-emitter observations). Fixed multisets are replayed in random orders with duplications (published set must not depend on order), every order of small multisets is enumerated, and scenarios are replayed through the real Run loop where the own-signature loop-back goroutine races for real.",
+         "Validity of an observation is judged against the set applicable at its delivery; confluence only without set changes and for a member node.", "3/C02"),
  "C04": ("exploration", "differential runtime oracle: real serializer/processor vs spec layout and source-interpreted Solidity/Ralph parsers",
          "Generated VAAs (boundary table for every field + random; payloads 0..65535) are serialized by the real code; body/digest compared with an independent layout + x/crypto keccak, parsed back by interpreters built at run time from Messages.sol parseVM and governance.ral parseAndVerifyVAA; invariance (version/set index/signatures/nanos) and single-field injectivity asserted per VAA; two real processors (Run loop, different keys, different set indices) must sign the harness' digest.",
          "Contract parsers are interpreted from source text by the harness (not EVM/VM execution). Held on the generated inputs only.", "3/C04"),
